@@ -10,7 +10,7 @@ csr.wishbone.WishboneCSRBridge.__init__ (C10)  granularity = CSR data width; Wis
                                           (csr_aw, csr_dw) with the CSR map as a window under the given name
 """
 import z3
-from vf.pyvc.engine import (Exec, Path, SymObj, Dyn, Opaque, NONE, Raised, Tup, DictLit, find_def, pow2, clog2, POW2_AXIOMS,
+from vf.pyvc.engine import (Empty, Exec, Path, SymObj, Dyn, Opaque, NONE, Raised, Tup, DictLit, find_def, pow2, clog2, POW2_AXIOMS,
                             CLOG2_AXIOMS, T_INT, T_NONE, Unsupported)
 from vf.pyvc.driver import FnVerifier
 from . import memory_model as mm_
@@ -568,4 +568,148 @@ def verify_gpio_init():
     return fv
 
 
-ALL = [verify_eventmonitor_init, verify_wb_csr_bridge_init, verify_sram_init, verify_gpio_init]
+def _bus_component_init(FILE, cls, sig_name, with_map, direction, list_attr):
+    """shared shape of the three bus components' constructors: one bus port whose signature is built from the arguments AS GIVEN (the
+    feature iterable handed over untouched - it may be a one-shot iterator), a fresh memory map of the matching geometry (decoders),
+    an empty collection of subordinates / initiators"""
+    qual = {"amaranth_soc/wishbone/bus.py": "wishbone.bus", "amaranth_soc/csr/bus.py": "csr.bus"}[FILE] + f".{cls}.__init__"
+    fv = FnVerifier(qual, AX)
+    fn = find_def(FILE, f"{cls}.__init__")
+    ex = Exec(FILE, cls, axioms=AX)
+    rec = Recorder()
+    wb = FILE.endswith("wishbone/bus.py")
+    aw, dw = z3.Ints("addr_width data_width")
+    g = Dyn("granularity")
+    k_ = z3.Int("log2_ratio")
+
+    class OneShot:
+        def iterated(self, ex_, obj, q, node):
+            q.ghost["features_iterated"] = q.ghost.get("features_iterated", 0) + 1
+    feats = SymObj("iterable", "features", model=OneShot())
+    align = Opaque("alignment argument")
+
+    def c_sig(ex_, recv, a, k, q, node):
+        obj = SymObj("Signature", "bus signature")
+        obj.init_fields.update(k)
+        rec.calls.append(("Signature", q.fork(), a, k, obj))
+        ok = q
+        # the signature validated its arguments (its own contract, sig_init): on the accepting path they are a legal geometry
+        if wb:
+            geff = z3.If(g.tag == T_NONE, dw, g.ival)
+            ok.assume(z3.And(aw >= 0, z3.Or(*[dw == w for w in (8, 16, 32, 64)]), z3.Or(g.tag == T_NONE, z3.And(g.tag == T_INT, z3.Or(*[g.ival == w for w in (8, 16, 32, 64)]))),
+                             geff <= dw))
+        else:
+            ok.assume(z3.And(aw > 0, dw > 0))
+        return [(obj, ok), (Raised("refused-by-Signature"), q.fork())]
+    ex.contracts["Signature"] = c_sig
+
+    def c_exact_log2(ex_, recv, a, kw, q, node):
+        x = ex_.toint(a[0], node)
+        bad = q.fork(); bad.ghost["log2_refused"] = True
+        q.assume(z3.And(k_ >= 0, pow2(k_) == x))
+        q.ghost["log2_of"] = x
+        return [(k_, q), (Raised("ValueError"), bad)]
+    ex.contracts["exact_log2"] = c_exact_log2
+    ex.contracts["In"] = lambda ex_, recv, a, k, q, node: [(("In", a[0]), q)]
+    ex.contracts["Out"] = lambda ex_, recv, a, k, q, node: [(("Out", a[0]), q)]
+    ex.contracts["super"] = lambda ex_, recv, a, k, q, node: [(Opaque("super()"), q)]
+
+    def c_memory_map(ex_, recv, a, k, q, node):
+        obj = SymObj("MemoryMap", "bus map", model=MapModel(rec))
+        rec.calls.append(("MemoryMap", q.fork(), a, k, obj))
+        return [(obj, q), (Raised("refused-by-MemoryMap"), q.fork())]
+    ex.contracts["MemoryMap"] = c_memory_map
+
+    class PortModel:
+        def setattr(self, ex_, obj, attr, value, q, node):
+            if attr != "memory_map":
+                return None
+            q.heap[(id(obj), attr)] = value
+            q.writes.append((obj.name, attr))
+            return [("fall", None, q), ("raise", "refused-by-memory_map-setter", q.fork())]
+
+    def c_super_init(ex_, recv, a, k, q, node):
+        members = a[0]
+        self__ = q.env["self"]
+        if not isinstance(members, DictLit):
+            raise Unsupported("wiring.Component.__init__ with something else than a dict literal")
+        q.ghost["members"] = members.items
+        port = SymObj("Port", "self.bus", model=PortModel())
+        q.heap[(id(self__), "bus")] = port
+        return [(NONE, q)]
+    ex.contracts["super().__init__"] = c_super_init
+    ex.empty_list_factory = lambda q: Empty("list")
+    q = Path()
+    self_ = SymObj(cls, "self")
+    q.assume(g.wf())
+    env = {"self": self_, "addr_width": aw, "data_width": dw}
+    if wb:
+        env.update({"granularity": g, "features": feats})
+    if with_map:
+        env["alignment"] = align
+    if wb and with_map:
+        env["name"] = Opaque("name")
+    q.env.update(env)
+    outs = ex.run(fn, q)
+    fv.paths = len(outs)
+    n_ok = 0
+    for kk, o in enumerate(outs):
+        p, lab = o.path, f"path{kk}"
+        if o.kind == "raise":
+            fv.add("the-constructor-itself-refuses-nothing", lab, p.pc, z3.BoolVal(o.exc.startswith("refused-by-") or bool(p.ghost.get("log2_refused"))))
+            continue
+        n_ok += 1
+        mine = [c for c in rec.calls if all(any(f.eq(h) for h in p.pc) for f in c[1].pc)]
+        sg = [c for c in mine if c[0] == "Signature"]; mmc = [c for c in mine if c[0] == "MemoryMap"]
+        fv.add("one-signature" + ("-one-memory-map" if with_map else ""), lab, p.pc, z3.BoolVal(len(sg) == 1 and len(mmc) == (1 if with_map else 0)))
+        if len(sg) != 1 or len(mmc) != (1 if with_map else 0):
+            continue
+        kw = sg[0][3]
+        same = lambda v, sym: isinstance(v, z3.ExprRef) and v.eq(sym)
+        ok_sig = same(kw.get("addr_width"), aw) and same(kw.get("data_width"), dw) and not sg[0][2]
+        if wb:
+            ok_sig = ok_sig and kw.get("features") is feats and set(kw) == {"addr_width", "data_width", "granularity", "features"}
+        else:
+            ok_sig = ok_sig and set(kw) == {"addr_width", "data_width"}
+        fv.add("signature-built-from-the-arguments-as-given", lab, p.pc, z3.BoolVal(bool(ok_sig)))
+        if wb:
+            gv = kw.get("granularity")
+            if with_map:        # the decoder resolves the default itself
+                fv.add("granularity-default-is-the-data-width", lab, p.pc, ex.toint(gv) == z3.If(g.tag == T_NONE, dw, g.ival) if not (gv is g) else g.tag != T_NONE)
+            else:               # the arbiter hands the argument (None included) to the signature, which resolves it
+                fv.add("granularity-handed-over-as-given", lab, p.pc, z3.BoolVal(gv is g))
+            fv.add("feature-iterable-not-consumed-by-the-constructor", lab, p.pc, z3.BoolVal(p.ghost.get("features_iterated", 0) == 0))
+        mem = p.ghost.get("members", {})
+        fv.add("one-port-named-bus-with-that-signature", lab, p.pc, z3.BoolVal(set(mem) == {"bus"} and mem["bus"] == (direction, sg[0][4])))
+        if with_map:
+            mk = mmc[0][3]
+            geff = z3.If(g.tag == T_NONE, dw, g.ival)
+            if wb:
+                want_aw = z3.If(aw + k_ >= 1, aw + k_, 1)
+                fv.add("map-geometry-matches-the-bus", lab, p.pc,
+                       z3.And(ex.toint(mk["addr_width"]) == want_aw, ex.toint(mk["data_width"]) == geff, pow2(k_) == dw / geff, z3.BoolVal(mk.get("alignment") is align)))
+            else:
+                fv.add("map-geometry-matches-the-bus", lab, p.pc,
+                       z3.And(ex.toint(mk["addr_width"]) == aw, ex.toint(mk["data_width"]) == dw, z3.BoolVal(mk.get("alignment") is align)))
+            port = p.heap.get((id(self_), "bus"))
+            fv.add("bus-carries-that-map", lab, p.pc, z3.BoolVal(port is not None and p.heap.get((id(port), "memory_map")) is mmc[0][4]))
+        coll = p.heap.get((id(self_), list_attr))
+        fv.add("starts-with-no-subordinates" if with_map else "starts-with-no-initiators", lab, p.pc, z3.BoolVal(isinstance(coll, Empty)))
+    fv.add("cover:accepting-paths", "vacuity", [], z3.BoolVal(n_ok >= 1))
+    fv.add_engine_obligations(ex)
+    return fv
+
+
+def verify_wb_decoder_init():
+    return _bus_component_init("amaranth_soc/wishbone/bus.py", "Decoder", "Signature", True, "In", "_subs")
+
+
+def verify_wb_arbiter_init():
+    return _bus_component_init("amaranth_soc/wishbone/bus.py", "Arbiter", "Signature", False, "Out", "_intrs")
+
+
+def verify_csr_decoder_init():
+    return _bus_component_init("amaranth_soc/csr/bus.py", "Decoder", "Signature", True, "In", "_subs")
+
+
+ALL = [verify_eventmonitor_init, verify_wb_csr_bridge_init, verify_sram_init, verify_gpio_init, verify_wb_decoder_init, verify_wb_arbiter_init, verify_csr_decoder_init]
